@@ -27,6 +27,8 @@ EXPLANATION = (
     "reverse mode return Re dO/dx). SIB-2: the force bias equals the Coulomb trace(s) that enter the "
     "two-body energy of the same class (times 2 for the restricted RHF routines). SYM-1 mirror rule for "
     "_overlap_with_rot_sd. "
+    "HOLO-1 on every _calc_force_bias*; CAP-1 (Cholesky-vector axis complete); SIB-2 (dependence form) "
+    "for hand-written restricted force biases. "
 )
 NOT_DECIDED = "numerical equality of the three evaluation modes; signs and factors inside the hand-coded contractions where no second copy exists (ghf)."
 TECHNIQUE = "static analysis: cotangent-index binding check, linear value numbering of sibling implementations, spin-exchange symmetry"
